@@ -111,11 +111,22 @@ def run(tier, seed, replay=None):
         metas.append((s, ob, stream))
         res.sample({"schema": s, "values": ["NotPassed" if v is sc.NP else v for v, _ in ob["vals"]][:3],
                     "verdicts": [o[0] for _, o in ob["vals"]][:3]}, limit=4)
-    codes, err = sc.run_cases(cases, tag="c01")
+    codes, err = sc.eval_codes(["Elem", "Validate", "Parser", "RunSchema"], "run_case_c01", cases, tag="c01")
     res.corr_error = err
     res.corr_mismatches = []
+    stats["theorem_applies"] = {"cases": 0, "calls": 0}
     for idx, cs in sorted((codes or {}).items()):
         s, ob, stream = metas[idx]
+        if 9 in cs:
+            # the schema lies in the fragment of C01_validity_plain (Plain.plainb, proved sound): on these cases the
+            # model's verdicts are Draft 6 by theorem, so the implementation is tied to Draft 6 by correspondence alone
+            stats["theorem_applies"]["cases"] += 1
+            stats["theorem_applies"]["calls"] += len(ob["vals"])
+            cs = [c for c in cs if c != 9]
+            if 5 in cs:
+                res.corr_mismatches.append({"schema": s, "codes": cs, "what": "model verdict differs from v6 on a schema of the plain fragment: contradicts C01_validity_plain (cannot happen unless the build is inconsistent)"})
+            if not cs:
+                continue
         for c in cs:
             stats["codes"][c] = stats["codes"].get(c, 0) + 1
         vals_json = ["__NotPassed__" if v is sc.NP else v for v, _ in ob["vals"]]
